@@ -231,3 +231,8 @@ Definition split_raw (t : str) : outcome := finish (run t).
 (* Splitter(text).split().blocks *)
 Definition split (t : str) : outcome :=
   match split_raw t with Blocks bs => Blocks (rebuild bs) | Raised => Raised end.
+
+(* Splitter(text).split(library=L).blocks for a library L that holds the blocks `prev` (themselves added one by one):
+   the new blocks are added to the SAME key indexes (parse_string(text, library=L)) *)
+Definition split_into (prev : list block) (t : str) : outcome :=
+  match split_raw t with Blocks bs => Blocks (lblocks (lib_add_all bs (lib_of prev))) | Raised => Raised end.
